@@ -163,9 +163,28 @@ def run(cx, rep):
             rep.ob("C07.2", "insert-result-propagated", len(uses) == 1, "the result of insert_definition is dropped (a clash would go unnoticed)", "%s:%s" % (c.file, c.line))
         cnt = [c for c in calls if any(a.get("place") for a in c.term["args"])]
         for c in calls:
-            o = O.of_operand(c.term["args"][3])
-            rep.ob("C07.2", "counter-threaded", ("param", 1) in o and not any(x[0] == "const" for x in o if isinstance(x[1], str) and x[1][:1].isdigit()),
-                   "semtype_to_runtypes must receive the frontend's own counter by &mut", "%s:%s" % (c.file, c.line), sample={"origins": sorted(map(str, o))[:5]})
+            # the counter argument must be a `&mut` borrow of the frontend's own `counter` field (not a copy)
+            a = c.term["args"][3]
+            ok = False
+            l = op_place(a)["l"] if op_place(a) else None
+            seen = set()
+            while l is not None and l not in seen:
+                seen.add(l)
+                nxt = None
+                for _, d in flow.defs_of(l):
+                    rv = d.get("rv")
+                    if rv and rv["k"] == "Ref" and rv.get("mut"):
+                        pl = rv["place"]
+                        if any(p.endswith("::counter") for p in pl["p"]) and pl["l"] == 1:
+                            ok = True
+                        elif all(p == "*" for p in pl["p"]):
+                            nxt = pl["l"]
+                    elif rv and rv["k"] == "Use" and op_place(rv["op"]) is not None and not op_place(rv["op"])["p"]:
+                        nxt = op_place(rv["op"])["l"]
+                l = nxt
+            rep.ob("C07.2", "counter-threaded", ok,
+                   "semtype_to_runtypes must receive `&mut self.counter` itself; a copy restarts the numbering of generated helper types, so two operations can define the same generated name with different bodies",
+                   "%s:%s" % (c.file, c.line), sample={"counter_argument_is_mut_borrow_of_field": ok})
 
     # ---------------------------------------------------------------- C07.3
     rep.rule("C07.3", "tag / proper-subtype / atom dispatch of the materialisation is total (no value-returning catch-all)")
@@ -189,6 +208,8 @@ def run(cx, rep):
     rep.ob("C07.3", "scan", True, sample={"dispatch_matches": n_m})
     rep.floor("C07.3", "dispatch matches in to_schema.rs", n_m, 10)
 
+    rep.rule("C07.5", "atom materialisation depends on every field of the atomic type")
+    atom_field_coverage(cx, rep, F)
     # ---------------------------------------------------------------- C07.4
     rep.rule("C07.4", "polarity of materialised literal sets and atoms")
     n_mn = 0
@@ -233,6 +254,113 @@ def run(cx, rep):
             rep.ob("C07.4", "%s/atoms" % f.name, seen == {"positive": False, "negative": True},
                    "%s: Not must wrap exactly the negative atoms of a clause (found %s)" % (f.id, seen), f.loc(), sample={"fn": f.name, "not_applied": seen})
     rep.floor("C07.4", "maybe_not call sites", n_mn, 8)
+
+
+def atom_field_coverage(cx, rep, F):
+    """C07.5: in each <family>_atom_schema(mt: &Rc<Atomic>) every returned value depends, by data or by the
+    conditions guarding the return, on every field of the atomic type (table: fields that are empty by construction)"""
+    exc = {(e["fn"], e["field"]): e for e in cx.table("c07_atom_fields.json")["ignored"]}
+    n = 0
+    for gid in sorted(F.hir):
+        f = F.fns.get(gid)
+        if f is None or not (f.file or "").endswith("subtyping/to_schema.rs") or not (f.name or "").endswith("_atom_schema"):
+            continue
+        tree = F.hir[gid]
+        ps = [p.get("name") for p in tree["params"]]
+        if len(ps) < 2:
+            continue
+        mt = ps[1]
+        m = re.search(r"Rc<([\w:]+)>", (f.inputs or ["", ""])[1])
+        adt = F.adts.get(m.group(1)) if m else None
+        if adt is None:
+            rep.anchor_missing("C07.5", "atomic type of %s" % gid)
+            continue
+        fields = {fl["name"] for fl in adt["variants"][0]["fields"]}
+
+        def reads(e, env):
+            out = set()
+            for x in walk(e):
+                if x["k"] == "Field" and locals_in(x["e"]) == [mt]:
+                    out.add(x["name"])
+                if x["k"] == "Path" and x.get("res") == "local" and x["name"] in env:
+                    out |= env[x["name"]]
+            return out
+
+        results = []
+
+        def always_returns(e):
+            e = strip_block(e)
+            if e["k"] == "Ret":
+                return True
+            if e["k"] == "BlockExpr":
+                b = e["block"]
+                last = (b["stmts"][-1]["e"] if b["stmts"] and b["stmts"][-1]["k"] in ("Semi", "ExprStmt") else None) if b.get("expr") is None else b["expr"]
+                return last is not None and always_returns(last)
+            if e["k"] == "If" and e.get("else") is not None:
+                return always_returns(e["then"]) and always_returns(e["else"])
+            return False
+
+        def visit(e, cond, env, tail):
+            k = e["k"]
+            if k == "BlockExpr":
+                b = e["block"]
+                cond = set(cond)
+                env = dict(env)
+                for st in b["stmts"]:
+                    if st["k"] == "LetStmt" and st.get("init") is not None:
+                        visit(st["init"], cond, env, False)
+                        for bnd in walk(st["pat"]):
+                            if bnd["k"] == "P.Binding":
+                                env[bnd["name"]] = reads(st["init"], env)
+                    elif st["k"] in ("Semi", "ExprStmt"):
+                        visit(st["e"], cond, env, False)
+                        # locals mutated by this statement (assignment, push/insert/extend) now depend on what it reads
+                        dep = reads(st["e"], env) | cond
+                        for x in walk(st["e"]):
+                            tgt = None
+                            if x["k"] in ("Assign", "AssignOp") and x["l"]["k"] == "Path" and x["l"].get("res") == "local":
+                                tgt = x["l"]["name"]
+                            elif x["k"] == "MethodCall" and x["method"] in ("push", "insert", "extend", "push_str", "append"):
+                                ls = locals_in(x["recv"])
+                                tgt = ls[0] if len(ls) == 1 else None
+                            if tgt and tgt != mt:
+                                env[tgt] = env.get(tgt, set()) | dep
+                        inner = strip_block(st["e"])
+                        if inner["k"] == "If" and inner.get("else") is None and always_returns(inner["then"]):
+                            cond |= reads(inner["cond"], env)
+                if b.get("expr") is not None:
+                    visit(b["expr"], cond, env, tail)
+                return
+            if k == "If":
+                c2 = cond | reads(e["cond"], env)
+                visit(e["then"], c2, env, tail)
+                if e.get("else") is not None:
+                    visit(e["else"], c2, env, tail)
+                return
+            if k == "Match" and not (e.get("src") or "").startswith("TryDesugar"):
+                c2 = cond | reads(e["scrut"], env)
+                for a in e["arms"]:
+                    visit(a["body"], c2, env, tail)
+                return
+            if k == "Ret":
+                if e.get("e") is not None:
+                    results.append((e["line"], cond | reads(e["e"], env)))
+                return
+            # nested returns inside other expressions (e.g. `?` desugaring returns errors: ignore Err paths)
+            for x in walk(e):
+                if x is not e and x["k"] == "Ret" and x.get("e") is not None and not any("desugar" in mm for mm in (x.get("mac") or [])):
+                    results.append((x["line"], cond | reads(x["e"], env)))
+            if tail:
+                results.append((e["line"], cond | reads(e, env)))
+
+        visit(tree["body"], set(), {}, True)
+        for line, got in results:
+            n += 1
+            missing = {fl for fl in fields - got if (f.name, fl) not in exc}
+            rep.ob("C07.5", "%s/%s" % (f.name, "+".join(sorted(got)) or "none"), not missing,
+                   "%s returns a type that does not depend on the atom's field(s) %s: every list/mapping atom with that shape is materialised alike, whatever those fields hold" % (f.id, sorted(missing)),
+                   "%s:%s" % (f.file, line), sample={"fn": f.name, "return_depends_on": sorted(got)})
+    rep.floor("C07.5", "return sites of *_atom_schema", n, 6)
 
 
 def is_counter_ref(f, local):
